@@ -991,15 +991,22 @@ pub fn run(case: &str, st: &mut Stats) -> Outcome {
     let f = Formula::new(&raw, nv);
     let exp0 = up_initial(&f, nv);
     let pre = if light { "U " } else { "" };
+    // the residual hash is compared as an equivalence CLASS within the history (#k = the k-th
+    // distinct hash value seen in this case): the property fixes when two hashes are equal, not
+    // their numeric values (which depend on how primes are dealt to the literal occurrences)
+    let hash_classes: RefCell<Vec<u128>> = RefCell::new(vec![]);
     let show = |o: &Obs| -> String {
+        let s = obs_string(o);
+        // [model;diff;is_sat;hash]
+        let cut_h = s.rfind(';').unwrap();
         if light {
-            let s = obs_string(o);
-            // [model;diff;is_sat;hash] -> [model;diff]
-            let cut = s.rfind(';').unwrap();
-            let cut = s[..cut].rfind(';').unwrap();
+            // -> [model;diff]
+            let cut = s[..cut_h].rfind(';').unwrap();
             format!("{}]", &s[..cut])
         } else {
-            obs_string(o)
+            let mut hc = hash_classes.borrow_mut();
+            let k = match hc.iter().position(|h| *h == o.hash) { Some(k) => k, None => { hc.push(o.hash); hc.len() - 1 } };
+            format!("{};#{k}]", &s[..cut_h])
         }
     };
 
